@@ -101,6 +101,13 @@ def h_kod(a, *, b=4):
     return a * 10 + b
 
 
+t = 7        # a module-level constant used by h_gl (t is also a parameter name of the generated query lambdas)
+
+
+def h_gl(a):
+    return a + t
+
+
 def h_kwi(a, b):
     return (lambda a, b: a * 10 + b)(b=a, a=b)
 
